@@ -28,7 +28,10 @@ ArgShapes == {"none", "i64", "cstruct", "ref", "mutref", "slice", "mutslice", "s
 RetShapes == {"unit", "i64", "cstruct", "slice", "mutslice", "str", "opt", "optnpo", "optptr", "refret", "mutrefret", "optstruct",
               "result", "resunit", "resneg", "resio",
               \* `::core::option::Option<u64>`, `::std::result::Result<u64, ()>`
-              "optabs", "resabs"}
+              "optabs", "resabs",
+              \* a crate-local one-parameter alias `type Result<T> = core::result::Result<T, NegErr>` (the documented
+              \* `#[int_result] fn f(&self) -> Result<usize>` shape): integer coded like any other
+              "res1"}
 
 (* C-side type of each shape (as documented; `as implemented` where the README is silent) *)
 CRecv(r) == CASE r = "ref" -> "&CGlueC" [] r = "mut" -> "&mutCGlueC" [] r = "own" -> "CGlueC"
@@ -60,6 +63,7 @@ CRet(t, ir) ==
     [] t = "resunit" -> IF ir THEN [ret |-> "i32", out |-> <<>>] ELSE [ret |-> "CResult<(),()>", out |-> <<>>]
     \* std::io::Error (not C-representable itself: only as an integer code) with a negative raw OS code
     [] t = "resio" -> [ret |-> "i32", out |-> <<"&mutMaybeUninit<u64>">>]
+    [] t = "res1" -> [ret |-> "i32", out |-> <<"&mutMaybeUninit<u64>">>]
     \* a user error type whose integer codes are negative (errno style)
     [] OTHER -> IF ir THEN [ret |-> "i32", out |-> <<"&mutMaybeUninit<u64>">>] ELSE [ret |-> "CResult<u64,NegErr>", out |-> <<>>]
 
@@ -88,8 +92,8 @@ Supported(r, a, t) ==
 Defs == {[recv |-> r, arg |-> a, ret |-> t, ir |-> ir] :
            r \in Recvs, a \in ArgShapes, t \in RetShapes, ir \in BOOLEAN}
 Valid(d) == /\ Supported(d.recv, d.arg, d.ret)
-            /\ (d.ir => d.ret \in {"result", "resunit", "resneg", "resio", "resabs"})
-            /\ (d.ret = "resio" => d.ir)
+            /\ (d.ir => d.ret \in {"result", "resunit", "resneg", "resio", "resabs", "res1"})
+            /\ (d.ret \in {"resio", "res1"} => d.ir)
 
 CSig(d) == [params |-> <<CRecv(d.recv)>> \o CArg(d.arg) \o CRet(d.ret, d.ir).out, ret |-> CRet(d.ret, d.ir).ret]
 
